@@ -1105,6 +1105,7 @@ func run(c *h.Check) {
 	if c.Worker == 0 {
 		memoryIsolation(c)
 	}
+	lostResponses(c)
 	if c.Worker == 1%c.NWorkers {
 		nestedCalls(c)
 	}
@@ -1164,6 +1165,20 @@ func replay(c *h.Check, rf *h.ReplayFile) []vrt.Violation {
 		}
 		w.close()
 	default:
+		var lr struct {
+			L []any `json:"lost_response"`
+		}
+		if json.Unmarshal(rf.Ops, &lr) == nil && len(lr.L) == 3 {
+			kind, _ := lr.L[0].(string)
+			n, _ := lr.L[1].(float64)
+			lost, _ := lr.L[2].(float64)
+			var msg string
+			vrt.Run(vrt.Config{}, func() { msg = lostResponseCase(kind, int(n), int(lost)); vrt.Join() })
+			if msg != "" {
+				add("repeat-after-lost-response", rf.Sig, msg)
+			}
+			return vs
+		}
 		var vc valCase
 		json.Unmarshal(rf.Ops, &vc)
 		runValue(vc, func(clause, facts, detail string) { add(clause, rf.Sig, detail) })
